@@ -61,7 +61,20 @@ struct Shared
    uint32 nextSeq[8] = {0,0,0,0,0,0,0,0};
    volatile int extrasRunning = 0; volatile bool threadUp = false; volatile int extrasReleased = 0;
    RunResult * res = NULL;
+   // "no lost wake-up" invariant (evaluated at every scheduling decision): once every send call has returned, a receiver that still has a Message queued is never asleep
+   volatile int internalTid = -1; volatile bool armed = false;   // armed = StartInternalThread() has returned and shutdown has not been requested
+   volatile int sendsInFlight = 0, repliesInFlight = 0; volatile uint32 sendsDone = 0, repliesDone = 0;
 };
+static Shared * g_sh = NULL;
+static std::string NoLostWakeup(std::string & cls)
+{
+   Shared * sh = g_sh; if ((sh == NULL)||(!sh->armed)) return "";
+   if ((sh->sendsInFlight == 0)&&(sh->internalTid >= 0)&&(sh->sendsDone > sh->insideLog.size())&&(thr::IsAsleep(sh->internalTid)))
+      {cls = "receiver_asleep_with_message_queued"; return "the internal thread is blocked waiting (nothing pending on its wake-up mechanism, deadline not reached) although " + U(sh->sendsDone - sh->insideLog.size()) + " Message(s) whose SendMessageToInternalThread() call has returned are still in its queue and no send is in progress";}
+   if ((sh->repliesInFlight == 0)&&(sh->repliesDone > sh->replies.size())&&(thr::IsAsleep(0)))
+      {cls = "owner_asleep_with_reply_queued"; return "the owner is blocked waiting for a reply (nothing pending on its wake-up mechanism, deadline not reached) although " + U(sh->repliesDone - sh->replies.size()) + " reply Message(s) whose SendMessageToOwner() call has returned are still in its queue";}
+   return "";
+}
 
 class EchoThread : public Thread
 {
@@ -73,13 +86,16 @@ public:
       _sh->insideLog.push_back(m()->what);
       thr::Yield();
       MessageRef r = GetMessageFromPool(REPLY_BASE + m()->what);
+      _sh->repliesInFlight++;
       if (SendMessageToOwner(r).IsError()) thr::ReportAndExit("reply_send_failed", "SendMessageToOwner failed");
+      _sh->repliesDone++; _sh->repliesInFlight--;
       (void) numLeft;
       return B_NO_ERROR;
    }
    // the shape MessageTransceiverThread uses: its own event loop on the wake-up mechanism, with timed waits
    virtual void InternalThreadEntry()
    {
+      _sh->internalTid = thr::Self();
       if (_ownLoop == 0) {Thread::InternalThreadEntry(); return;}
       if (_ownLoop == 2)
       {
@@ -127,12 +143,13 @@ inline void Exec(const Plan & plan, RunResult & res)
    SetCurOp("C11 run"); WatchdogArm(0);
    Shared sh; sh.res = &res;
    thr::Begin(thrc::SchedCfgFrom(cfg));
+   g_sh = &sh; thr::SetInvariant(NoLostWakeup);
    {
       const bool sockets = (cfg.i("sockets", 1) != 0);
       EchoThread t(sockets, sockets ? (int) cfg.i("ownloop", 0) : (cfg.i("ownloop", 0) ? 1 : 0), &sh);
       const bool ownerSel = (sockets)&&(cfg.i("ownersel", 0) != 0);
       SocketMultiplexer ownerSm;
-      auto Send = [&](int sender, int k) {for (int i=0; i<k; i++) {const uint32 w = (uint32)(sender*100000) + sh.nextSeq[sender]++; if (t.SendMessageToInternalThread(GetMessageFromPool(w)).IsOK()) {sh.sentTo[sender].push_back(w); res.stats.inc("msgs_sent");} else thr::ReportAndExit("send_failed", "SendMessageToInternalThread failed"); if (i+1 < k) thr::Yield();}};
+      auto Send = [&](int sender, int k) {for (int i=0; i<k; i++) {const uint32 w = (uint32)(sender*100000) + sh.nextSeq[sender]++; sh.sendsInFlight++; if (t.SendMessageToInternalThread(GetMessageFromPool(w)).IsOK()) {sh.sentTo[sender].push_back(w); res.stats.inc("msgs_sent"); sh.sendsDone++; sh.sendsInFlight--;} else thr::ReportAndExit("send_failed", "SendMessageToInternalThread failed"); if (i+1 < k) thr::Yield();}};
       auto TotalSent = [&]() {size_t n = 0; for (auto & v : sh.sentTo) n += v.size(); return n;};
       auto GetReply = [&](uint64 wakeup) -> bool
       {
@@ -169,13 +186,14 @@ inline void Exec(const Plan & plan, RunResult & res)
          if (!running) return;
          thr::WaitUntil([&]() {return sh.extrasRunning == 0;});   // nobody sends concurrently with the shutdown request
          Drain();
+         sh.armed = false;
          t.ShutdownInternalThread(waitToo); res.stats.inc("shutdowns");
          if (waitToo) {running = false; sh.threadUp = false;}
       };
       for (const std::string & op : progs[0])
       {
          if (op == "Y") thr::Yield();
-         else if (op == "START") {if (!running) {if (t.StartInternalThread().IsError()) thr::ReportAndExit("start_failed", "StartInternalThread failed"); running = true; sh.threadUp = true; res.stats.inc("starts"); if (TotalSent() > sh.insideLog.size()) res.stats.inc("p.started_with_queued_messages");}}
+         else if (op == "START") {if (!running) {if (t.StartInternalThread().IsError()) thr::ReportAndExit("start_failed", "StartInternalThread failed"); running = true; sh.armed = true; sh.threadUp = true; res.stats.inc("starts"); if (TotalSent() > sh.insideLog.size()) res.stats.inc("p.started_with_queued_messages");}}
          else if ((op.size() > 1)&&(op[0] == 'S')&&(isdigit((unsigned char) op[1]))) Send(0, (int) ToI(op.substr(1)));
          else if (op == "G0") (void) GetReply(0);
          else if (op == "GN") {if ((running)&&(sh.replies.size() < TotalSent())) (void) GetReply(MUSCLE_TIME_NEVER);}   // waiting forever is only compliant when a reply is still owed
@@ -187,7 +205,7 @@ inline void Exec(const Plan & plan, RunResult & res)
       }
       if (!running) {sh.threadUp = true;}           // release extra senders that never saw the thread start (minimised plans)
       thr::WaitUntil([&]() {return sh.extrasRunning == 0;});
-      if (running) {Drain(); t.ShutdownInternalThread(true); running = false;}
+      if (running) {Drain(); sh.armed = false; t.ShutdownInternalThread(true); running = false;}
       // oracle: exactly once, per-sender order, replies in the order the inside saw the requests
       uint32 next[8] = {0,0,0,0,0,0,0,0};
       for (uint32 w : sh.insideLog)
@@ -202,6 +220,7 @@ inline void Exec(const Plan & plan, RunResult & res)
       if (sh.replies.size() != sh.insideLog.size()) thr::ReportAndExit((sh.replies.size() < sh.insideLog.size()) ? "reply_lost" : "reply_duplicated", "the internal thread sent " + U(sh.insideLog.size()) + " replies, the owner received " + U(sh.replies.size()));
       for (size_t i=0; i<sh.replies.size(); i++) if (sh.replies[i] != REPLY_BASE + sh.insideLog[i]) thr::ReportAndExit("reply_reordered", "reply #" + U(i) + " is " + U(sh.replies[i]) + " but the " + U(i) + "th request handled was " + U(sh.insideLog[i]));
    }
+   thr::SetInvariant(NULL); g_sh = NULL;
    thrc::FillSchedStats(res);
    thr::End();
    WatchdogDisarm();
